@@ -92,7 +92,7 @@ def _case(item):
                 want.append(LINE[e])
     # the ways a user can name the same cart file: absolute, through a symlinked directory, relative to the
     # working directory, with redundant components
-    how = (len(lines) * 7 + sum(len(l) for l in lines)) % 5
+    how = (len(lines) * 7 + sum(len(l) for l in lines)) % 6
     given = cart
     cwd = os.getcwd()
     old_home = os.environ.get('HOME')
@@ -107,6 +107,9 @@ def _case(item):
         given = os.path.basename(cart)
     elif how == 3:
         given = os.path.join(S, 'sub', '..', '.', os.path.basename(cart))
+    elif how == 5:
+        os.chdir(os.path.dirname(S))            # relative, with a directory component
+        given = os.path.join(os.path.basename(S), os.path.basename(cart))
     try:
         g = gfile.from_file(given)
         got = [l.rstrip(b'\n') for l in b''.join(g.lua.to_lines()).split(b'\n')]
@@ -187,6 +190,33 @@ def _reload(item):
     return out
 
 
+def many_tabs(ctx):
+    """tab selectors of more than one digit: a cart with 13 tabs, `NAME:n` for n around 9..13 (13 is past the last tab)"""
+    from pico8.game import file as gfile
+    S = tempfile.mkdtemp(prefix='c20t_', dir=ctx.tmp)
+    tabs = [[b't%d=%d' % (k, k), b'u%d=0' % k] for k in range(13)]
+    code = b'\n-->8\n'.join(b'\n'.join(t) for t in tabs) + b'\n'
+    open(os.path.join(S, 'T13.p8'), 'wb').write(HDR + code + b'__gfx__\n')
+    for n in (0, 1, 9, 10, 11, 12, 13, 20, 100):
+        open(os.path.join(S, 'm.p8'), 'wb').write(HDR + b'm1=1\n#include T13.p8:%d\nm2=2\n__gfx__\n' % n)
+        want = [b'm1=1'] + (tabs[n] if n < len(tabs) else []) + [b'm2=2']
+        try:
+            g = gfile.from_file(os.path.join(S, 'm.p8'))
+            got = b''.join(g.lua.to_lines()).split(b'\n')
+            if got and got[-1] == b'':
+                got = got[:-1]
+        except Exception as e:  # noqa
+            got = [b'<%s>' % type(e).__name__.encode()]
+        ctx.evaluations += 1
+        if got == want:
+            ctx.traces += 1
+            ctx.nontrivial += 1
+        else:
+            ctx.violation('many-tabs/%s/%s' % (classify(want, got), 'two-digit' if n >= 10 else 'one-digit'), '#include T13.p8:%d of a 13-tab cart: loaded %r, specified %r' % (n, got[:6], want[:6]),
+                          {'kind': 'many-tabs', 'n': n})
+    shutil.rmtree(S, ignore_errors=True)
+
+
 def reload_histories(ctx):
     kinds = [('T.lua', None), ('T.p8', None), ('T.p8', 0), ('T.p8', 1), ('T.p8.png', None), ('T.p8.png', 1)]
     res = core.parmap(_reload, [(k, ctx.tmp) for k in kinds], procs=6)
@@ -245,6 +275,7 @@ def run(ctx):
     ctx.traces += good
     ctx.nontrivial += good
     reload_histories(ctx)
+    many_tabs(ctx)
     ctx.exhaustive = False
     ctx.notes['exhaustive_up_to_lines'] = 2 if ctx.quick else 3
     ctx.canary(classify([b'a', b'b'], [b'ab']) == 'glued-line' and classify([b'a'], [b'a']) is None, 'comparison notices a glued line')
